@@ -12,13 +12,14 @@ TIMEOUT = {"quick": 900, "thorough": 5400}
 RULE = (
     "hostile screens (non-ASCII/empty/unequal-length names, empty control name, hostile doses, observations incl. NaN, "
     "+-inf, -0.0, subnormals in front of and behind a plate-uniform mask), screens whose mappings are strict supersets of "
-    "their rows (built by the real hold-out split and by re-construction with a supplied mapping), zero-row screens; "
+    "their rows (built by the real hold-out split and by re-construction with a supplied mapping), screens whose plates "
+    "were merged in place before saving, zero-row screens; "
     "1-4 consecutive save/load cycles through real h5 files; every observable compared (strings by value, floats by "
     "bits, ids and mappings incl. rows absent from the data); same for ExperimentSpace. A case is one screen x cycle "
     "count; distinct = hash of all fields; non-trivial = at least 2 rows and 2 distinct treatment pairs"
 )
 ASSUMPTIONS = ["h5 files are compared through their loaded content, never byte-wise", "a change of the <U width of a string array on load is not a difference"]
-REQUIRED = {"roundtrips_checked": {"quick": 2000, "thorough": 15000}, "superset_mapping_roundtrips": {"quick": 500, "thorough": 4000}, "space_roundtrips": {"quick": 600, "thorough": 5000}}
+REQUIRED = {"plate_merges_before_save": {"quick": 200, "thorough": 2000}, "roundtrips_checked": {"quick": 2000, "thorough": 15000}, "superset_mapping_roundtrips": {"quick": 500, "thorough": 4000}, "space_roundtrips": {"quick": 600, "thorough": 5000}}
 N_CASES = {"quick": 2400, "thorough": 19200}
 
 WEIRD_OBS = [float("nan"), float("inf"), float("-inf"), -0.0, 0.0, 5e-324, 1e-310, -1.0, 1.0, 0.1 + 0.2, 1e308, np.float64(np.nextafter(1.0, 2.0))]
@@ -78,7 +79,7 @@ def run_shard(rec, tier, seed, shard, nshards):
     with kit.scratch_dir("vf-c02-") as tmp:
         fn = os.path.join(tmp, "s.h5")
         for ci in range(n_cases):
-            kind = str(rng.choice(["hostile", "hostile", "holdout", "supplied", "zero"], p=[0.35, 0.2, 0.2, 0.2, 0.05]))
+            kind = str(rng.choice(["hostile", "merged", "holdout", "supplied", "zero"], p=[0.45, 0.1, 0.2, 0.2, 0.05]))
             try:
                 if kind == "hostile":
                     kw = gen.hostile_screen_kwargs(rng)
@@ -90,6 +91,18 @@ def run_shard(rec, tier, seed, shard, nshards):
                     if rng.random() < 0.3:
                         kw["control_treatment_name"] = ""
                     s = Screen(**kw)
+                elif kind == "merged":
+                    # a screen whose plates were merged in place (what the merge smoothers do) before it is saved
+                    kw = gen.hostile_screen_kwargs(rng, n=int(rng.integers(4, 40)))
+                    kw.pop("observation_mask", None)
+                    s = Screen(**kw)
+                    for _ in range(int(rng.integers(1, 4))):
+                        pls = s.plates
+                        if len(pls) < 2:
+                            break
+                        i, j = (int(x) for x in rng.choice(len(pls), size=2, replace=False))
+                        pls[i].merge(pls[j])
+                        rec.count("plate_merges_before_save")
                 elif kind == "holdout":
                     kw = gen.realistic_screen_kwargs(rng, observed=str(rng.choice(["none", "some"])), singletons=0.25, control=str(rng.choice(["", "DMSO", "é"])))
                     full = Screen(**kw)
